@@ -209,6 +209,13 @@ def call_builtin(ex, obj, args, kwargs, st):
         a = args[0]
         if isinstance(a.ty, (TInt, TBool, TReal)):
             return [(st, coerce(a, REAL))]
+        if isinstance(a.ty, TStr):
+            # CPython: float(s) raises ValueError unless s is a float literal; which texts are literals and what they denote is left
+            # uninterpreted (inf / nan literals denote no real: A-FLOAT)
+            ok_ = z3.Function('float_text', Str, B)(a.term)
+            val_ = z3.Function('float_value', Str, R)(a.term)
+            s = ex.need(st, (z3.Not(ok_), ValueError))
+            return [(s, mk_real(val_))] if s is not None else []
         raise Unsupported('float() of %r' % (a.ty,))
     if obj is tuple or obj is list:
         if not args:
